@@ -75,6 +75,17 @@ theorem tiles_cover {l : List Block} {lo hi : Nat} (h : Tiles l lo hi) {x : Nat}
     · obtain ⟨pre, b, post, e, hb⟩ := ih h3 ⟨by omega, hx.2⟩
       exact ⟨c :: pre, b, post, by simp [e], hb⟩
 
+/-- two different blocks of a tiling do not overlap -/
+theorem tiles_disjoint {l : List Block} {lo hi : Nat} (h : Tiles l lo hi) {b c : Block}
+    (hb : b ∈ l) (hc : c ∈ l) (hne : b ≠ c) : Disjoint b.start b.size c.start c.size := by
+  obtain ⟨pre, post, rfl⟩ := List.append_of_mem hb
+  have hs := tiles_split h
+  rcases List.mem_append.mp hc with h1 | h1
+  · have := tiles_mem hs.1 h1; right; omega
+  · rcases List.mem_cons.mp h1 with h1 | h1
+    · exact absurd h1.symm hne
+    · have := tiles_mem hs.2.2 h1; left; omega
+
 /-! ### NoAdjFree -/
 
 theorem noAdj_cons {a : Block} {l : List Block} :
@@ -1086,6 +1097,124 @@ theorem inv_init {size pos off : Nat} {a : CBA} (h : CBA.init size pos off = som
       simp at hb; subst hb
       simp at hlt
   · simp at h
+
+
+/-! ### `blocks()` -/
+
+def usedOnly (c : Option Block) : Option Block :=
+  match c with
+  | some b => if b.used then some b else none
+  | none => none
+
+theorem filterMap_replicate_none (n : Nat) :
+    (List.replicate n (none : Option Block)).filterMap usedOnly = [] := by
+  induction n with
+  | zero => rfl
+  | succ n ih => simp [List.replicate_succ, usedOnly, ih]
+
+theorem blocks_render (lead : Nat) (bs : List Block) :
+    (render lead bs).filterMap usedOnly = bs.filter (·.used) := by
+  unfold render
+  rw [List.filterMap_append, filterMap_replicate_none, List.nil_append]
+  induction bs with
+  | nil => rfl
+  | cons b l ih =>
+    rw [List.flatMap_cons, List.filterMap_append, ih]
+    simp only [seg, List.filterMap_cons, filterMap_replicate_none]
+    cases hb : b.used <;> simp [usedOnly, hb]
+
+theorem blocks_eq {a : CBA} {bs : List Block} (h : WInv a bs) : a.blocks = bs.filter (·.used) := by
+  unfold CBA.blocks
+  rw [h.array]
+  exact blocks_render _ _
+
+
+/-! ### NodeIDAllocator -/
+
+theorem wrap_next {init t : Int} (h0 : init ≤ t) (h1 : t ≤ idMax) :
+    wrapInt (t + 1) init idMax = if t = idMax then init else t + 1 := by
+  simp only [idMax] at h1 ⊢
+  unfold wrapInt scMod
+  by_cases ht : t = 0x03FFFFFF
+  · subst ht
+    rw [if_pos (by omega)]
+    simp only []
+    rw [if_pos (by omega)]
+    simp; omega
+  · rw [if_neg (by omega), if_neg (by omega)]
+    simp only [ht, if_false]; omega
+
+/-- the id made from window position `q` -/
+def idOf (user i0 q : Nat) : Nat := (i0 + q) ||| (user <<< 26)
+
+/-- window length `0x03FFFFFF - init + 1` -/
+def window (i0 : Nat) : Nat := 0x04000000 - i0
+
+theorem idOf_eq {user i0 q : Nat} (h : i0 + q < 2 ^ 26) : idOf user i0 q = user * 2 ^ 26 + (i0 + q) := by
+  unfold idOf
+  rw [Nat.or_comm, ← Nat.shiftLeft_add_eq_or_of_lt h, Nat.shiftLeft_eq]
+
+/-- the allocator is at window position `p` -/
+structure NIA.At (a : NIA) (user i0 p : Nat) : Prop where
+  user : a.user = user
+  init : a.initTemp = (i0 : Int)
+  temp : a.temp = (i0 : Int) + (p : Int)
+  lt : p < window i0
+  i0le : i0 ≤ 0x03FFFFFF
+
+theorem NIA.alloc_at {a : NIA} {user i0 p : Nat} (h : a.At user i0 p) :
+    a.alloc.2 = some (idOf user i0 p) ∧ a.alloc.1.At user i0 ((p + 1) % window i0) := by
+  have hl := h.lt
+  have hi := h.i0le
+  unfold window at hl
+  unfold NIA.alloc
+  constructor
+  · simp only [h.temp, h.user]
+    rw [if_neg (by omega)]
+    congr 2
+  · have hw := wrap_next (init := a.initTemp) (t := a.temp) (by rw [h.init, h.temp]; omega)
+      (by rw [h.temp]; simp only [idMax]; omega)
+    refine ⟨h.user, h.init, ?_, Nat.mod_lt _ (by unfold window; omega), hi⟩
+    simp only [hw]
+    by_cases hlast : p + 1 = window i0
+    · have : a.temp = idMax := by rw [h.temp]; simp only [idMax]; unfold window at hlast; omega
+      rw [if_pos this, hlast, Nat.mod_self, h.init]; simp
+    · have : a.temp ≠ idMax := by rw [h.temp]; simp only [idMax]; unfold window at hlast; omega
+      rw [if_neg this, Nat.mod_eq_of_lt (by unfold window at hlast ⊢; omega), h.temp]
+      omega
+
+theorem NIA.allocs_at {a : NIA} {user i0 p : Nat} (h : a.At user i0 p) (n : Nat) :
+    (a.allocs n).2 = (List.range n).map (fun i => some (idOf user i0 ((p + i) % window i0))) ∧
+    (a.allocs n).1.At user i0 ((p + n) % window i0) := by
+  induction n generalizing a p with
+  | zero =>
+    simp only [NIA.allocs, List.range_zero, List.map_nil, Nat.add_zero, true_and]
+    rw [Nat.mod_eq_of_lt h.lt]; exact h
+  | succ n ih =>
+    obtain ⟨h1, h2⟩ := NIA.alloc_at h
+    obtain ⟨h3, h4⟩ := ih h2
+    simp only [NIA.allocs]
+    constructor
+    · rw [List.range_succ_eq_map, List.map_cons, List.map_map, h1, h3]
+      congr 1
+      · simp [Nat.mod_eq_of_lt h.lt]
+      · apply List.map_congr_left
+        intro i _
+        simp only [Function.comp, Nat.succ_eq_add_one]
+        rw [Nat.mod_add_mod]
+        congr 3; omega
+    · have : (p + (n + 1)) % window i0 = ((p + 1) % window i0 + n) % window i0 := by
+        rw [Nat.mod_add_mod]; congr 1; omega
+      rw [this]; exact h4
+
+theorem NIA.init_at {user i0 : Nat} {a : NIA} (h : NIA.init user (i0 : Int) = some a)
+    (hi : i0 ≤ 0x03FFFFFF) : a.At user i0 0 := by
+  unfold NIA.init at h
+  split at h
+  · simp at h
+  · simp only [Option.some.injEq] at h
+    subst h
+    exact ⟨rfl, rfl, by simp, by unfold window; omega, hi⟩
 
 
 end Sc3Verif.C16
